@@ -68,4 +68,5 @@ EXTRAS = [
     lambda rep, fb, tier: __import__("vf.rules.lints3", fromlist=["x"]).rule_range_same_base(rep, fb),
     lambda rep, fb, tier: __import__("vf.rules.lints3", fromlist=["x"]).rule_regularized_copy_used(rep, fb),
     lambda rep, fb, tier: __import__("vf.rules.pyrules5", fromlist=["x"]).rule_py_depth_selector_regular(rep),
+    lambda rep, fb, tier: __import__("vf.rules.pyrules5", fromlist=["x"]).rule_py_derived_node_mix(rep),
 ]
